@@ -17,7 +17,7 @@ impl Hasher for Fnv {
 		}
 	}
 }
-fn fnv_hash<T: ?Sized + Hash>(t: &T) -> u64 {
+pub fn fnv_hash<T: ?Sized + Hash>(t: &T) -> u64 {
 	let mut h = Fnv(0xcbf29ce484222325);
 	t.hash(&mut h);
 	h.finish()
@@ -38,12 +38,12 @@ impl Hasher for Chunky {
 		}
 	}
 }
-fn chunky_hash<T: ?Sized + Hash>(t: &T) -> u64 {
+pub fn chunky_hash<T: ?Sized + Hash>(t: &T) -> u64 {
 	let mut h = Chunky(0xcbf29ce484222325);
 	t.hash(&mut h);
 	h.finish()
 }
-fn default_hash<T: ?Sized + Hash>(t: &T) -> u64 {
+pub fn default_hash<T: ?Sized + Hash>(t: &T) -> u64 {
 	let mut h = std::collections::hash_map::DefaultHasher::new();
 	t.hash(&mut h);
 	h.finish()
